@@ -6,7 +6,7 @@ from concurrent.futures import ThreadPoolExecutor
 from dataclasses import dataclass
 from math import ceil, log2
 from operator import attrgetter
-from queue import Queue, SimpleQueue
+from queue import Empty, Queue, SimpleQueue
 from threading import Thread
 from typing import Dict, Iterator, List, Optional, Tuple, Union
 
@@ -466,8 +466,14 @@ class HttpFetcherThread(Thread):
 
     def run(self) -> None:
         with HttpRangeStream(self.url) as http_reader:
-            while not self.query_queue.empty():
-                offset, size = self.query_queue.get()
+            while True:
+                # `empty()` followed by a blocking `get()` is a race: another
+                # worker may take the last query in between, and this thread
+                # would then block forever
+                try:
+                    offset, size = self.query_queue.get_nowait()
+                except Empty:
+                    break
                 try:
                     http_reader.seek(offset)
                     data = http_reader.read(size)
@@ -490,10 +496,16 @@ def http_queue_strategy(
     for query in byte_queries:
         query_queue.put(query)
 
-    for _ in range(min(len(byte_queries), num_threads)):
-        HttpFetcherThread(source.url, query_queue, result_queue).start()
+    workers = [
+        HttpFetcherThread(source.url, query_queue, result_queue)
+        for _ in range(min(len(byte_queries), num_threads))
+    ]
+    for worker in workers:
+        worker.start()
 
     query_queue.join()
+    for worker in workers:
+        worker.join()
 
     results = []
     while not result_queue.empty():
